@@ -106,7 +106,7 @@ func runCase(c *Case) *Result {
 
 	// ---- sequential reference ----
 	zzsim.SetMode(zzsim.ModeOff)
-	ref := buildWorld(c)
+	ref := buildWorld(c, nil, true)
 	ref.rs.solo = true
 	want := newOuts(c)
 	var solo uint64
@@ -127,7 +127,7 @@ func runCase(c *Case) *Result {
 
 	// ---- simulated concurrent phase on one shared world ----
 	raceBefore := raceLogSize()
-	sh := buildWorld(c)
+	sh := buildWorld(c, ref.cat, c.Pretouch)
 	if sh.setupDiag != ref.setupDiag {
 		res.Verdict = "internal"
 		res.Detail = "setup diagnostics differ between two parses of the same sources"
